@@ -27,7 +27,7 @@ ASSUMPTIONS = [
     '64-bit target; i128 arithmetic as specified by Rust',
 ]
 
-FLOORS = {'R14.1': 7, 'R14.2': 2, 'R14.3': 10}
+FLOORS = {'R14.1': 7, 'R14.2': 2, 'R14.3': 15}
 
 U64MAX = 2**64 - 1
 
@@ -237,6 +237,26 @@ def r14_3(cx):
     # privacy
     pub = [f['n'] for f in adt['variants'][0]['fields'] if f['vis'].startswith('Public')]
     cx.check(not pub, 'fields-private', None, '%s:%s' % (adt['file'], adt['line']), 'all fields private', fail_detail='public fields %s' % pub)
+    # check() rejects for one reason of its own (the voucher); every other verdict is the window test's
+    eo = [cs.pos for cs in check.calls('io::Error::other')] + [pos for pos, st in check.statements() if st['k'] == 'assign' and st['rv']['k'] == 'agg'
+                                                                 and st['rv']['variant'] == 'Err' and not check.rvalue_expr(st['rv']).has_call('io::Error::other')]
+    ok_one = len(eo) == 1
+    if ok_one:
+        bb = eo[0].bb
+        ok_one = any(val is False and is_call(e, 'CheckingParameters::check') and named_const(e.strip().args[0], 'BASE_TIME_CHECK') for e, val, edge in check.facts_at(bb))
+    cx.check(ok_one, 'single-rejection', check, None, 'check() builds one error of its own, on the false edge of BASE_TIME_CHECK.check',
+             fail_detail='check() rejects for %d reason(s) of its own besides the window verdict (an extra fast-path rejection changes the accepted set)' % len(eo))
+    # the functions on the construction path call nothing but what was audited as total (no panic, no hidden verdict)
+    TOTAL = ('::from', '::into', 'Ord::min', 'Ord::max', 'Ord::clamp', 'RangeInclusive::new', 'RangeInclusive::contains', 'Range::contains', 'unsigned_abs',
+             'Try>::branch', 'from_residual', '::div_euclid', '::rem_euclid', 'io::Error::other', 'raffle::CheckingParameters::check',
+             'OffsetDateTime::unix_timestamp_nanos', 'PlainDateTime::assume_utc', 'OffsetDateTime::now_utc', 'OffsetDateTime::date', 'OffsetDateTime::time',
+             'PlainDateTime::new', 'FnOnce::call_once', 'VouchedTime::check', 'VouchedTime::check_or_die', 'VouchedTime::check_vouched_time', 'VouchedTime::new',
+             'wrapping_sub', 'wrapping_add', 'saturating_sub', 'saturating_add', 'abs_diff', 'fmt::Arguments', 'Option::is_some', 'Option::is_none')
+    for f in (new, now, check, window):
+        unk = sorted({cs.callee for cs in f.calls() if not cs.t.get('exp') and not any(t in cs.callee for t in TOTAL)})
+        cx.count_sites()
+        cx.check(not unk, 'callees-audited:' + short(f.name), f, None, 'calls only functions audited as total on their whole domain',
+                 fail_detail='%s calls %s, which is not in the audited list: it may panic or fail on part of the 64-bit / calendar range' % (short(f.name), [short(u) for u in unk]))
     # no panicking helpers on the library's own paths
     for f in (new, now, check, window):
         bad = [short(cs.callee) for cs in f.calls() if cs.callee.rsplit('::', 1)[-1] in ('unwrap', 'expect', 'panic', 'panic_fmt', 'unwrap_unchecked')
